@@ -36,6 +36,7 @@ pub struct Info {
 }
 
 fn exec<D: Doc>(p: &PrepDoc<D>, src: Src, script: &Script) -> Result<Info, Violation> {
+    crate::ctx::scrub_stack();
     let len = p.b.len();
     let budget = 4 * len + 2 * script.steps.len() + 64;
     let what = format!("deserialize_full::<{}> from {:?} with {:?}", D::NAME, src, script);
